@@ -43,6 +43,7 @@ def faultOf : String → Except String Fault
   | "exit" => pure .exit
   | "closeout" => pure .closeout
   | "http500" => pure .http500
+  | "http404" => pure .http500   -- any non-200 answer: a body is handed out, the exchange is refused
   | s => throw s!"fault {s}"
 
 structure Scen where
@@ -209,15 +210,23 @@ def ledgerJson (s : St) (idx : List Nat) : Json :=
     the failed (or successful) Initialize has returned, or while it is in flight (the peer answers after the Close).
     The client's state at the time of the Close is Connected / Initialized only after a handshake that succeeded and
     has returned (`Cfg.connected`); the transport is up in every case (`init`). -/
-def runHandshake (f : Facts) (t : Transport) (step : String) (during getSSE : Bool) : Json := Id.run do
-  let success := step == "none"
+def runHandshake (f : Facts) (detachedStart closeEndsStart : Bool) (t : Transport) (step : String) (during getSSE : Bool) : Json := Id.run do
+  -- `getHold` on the Streamable client: the handshake succeeds, the listening stream's GET is accepted and never answered
+  let success := step == "none" || (step == "getHold" && t.http)
   let cfg : Cfg := { t := t, getSSE := getSSE && (success || during), connected := success && !during }
   let sc : Scen := { t := t, fr := .length, handlers := false, n := 1, answered := 0, fault := .none, pos := .frameEnd, ctx := "none",
                      post := false, accept := false, afterInit := false, closeLive := true }
   let closeEvs : List Ev := [.closeBegin, .closeEnd, .readerExit, .watcherExit, .closeWaitExit]
   let mut s := apply f cfg (init cfg) [.issue 0]
   let mut initOut := "hung"
-  if during then
+  if during && step == "endpointStall" && t = .sse && !closeEndsStart then
+    -- the handshake is inside `start`, waiting for the endpoint event in a select over {endpoint, caller's context, timer}
+    -- (regenerated: no case of `start`'s selects is recognised as ending on the transport's close): Close() ends the stream and
+    -- the reader, the wait goes on until the caller's context ends — the harness gives up before that.  Outcome left open
+    -- for a close case the extractor does not recognise.
+    s := apply f cfg s closeEvs
+    initOut := "hung|err"
+  else if during then
     s := apply f cfg s closeEvs
     s := apply f cfg s (answerFully sc 0)   -- the peer answers after the Close
     let (s', o) := finish f cfg s 0 false
@@ -234,6 +243,11 @@ def runHandshake (f : Facts) (t : Transport) (step : String) (during getSSE : Bo
       s := apply f cfg s (if t.http then [.headers 0 false] else [.connErr 0])
     else if step == "exit" then
       s := apply f cfg s [.procExit, .readerExit, .watcherExit]
+    else if step == "getHold" && t = .sse && detachedStart then
+      -- the stream request of the handshake is sent with a context detached from the caller's (regenerated: `start`'s
+      -- request is not built with its own context parameter): the caller's deadline is no exit of this wait; Initialize is
+      -- still waiting when the harness gives up on it (the Close() that follows releases it)
+      pure ()
     else
       s := apply f cfg s [.ctxDone 0]
     let (s', o) := finish f cfg s 0 false
@@ -287,7 +301,11 @@ def handle (op : String) (j : Json) : Except String Json := do
     pure (runScript (factsOf tb t) sc)
   | "handshake" =>
     let t ← transportOf (← getStr j "t")
-    pure (runHandshake (factsOf tb t) t (← getStr j "step") ((← getStr j "close") == "during") (← getBool j "getSSE"))
+    let starts := tb.bodies.filter (fun b => b.client = .sse && b.obtains && b.fn = Mcp.Str.ofString "start")
+    let detached := starts.isEmpty || starts.any (fun b => !b.reqCtx)
+    let startSel := tb.selects.filter (fun x => x.client = .sse && x.fn = Mcp.Str.ofString "start")
+    let closeEnds := !startSel.isEmpty && startSel.all (·.tctx)
+    pure (runHandshake (factsOf tb t) detached closeEnds t (← getStr j "step") ((← getStr j "close") == "during") (← getBool j "getSSE"))
   | "serverReq" =>
     let sv ← serverOf (← getStr j "server")
     let ends ← (← getArr j "ends").toList.mapM (fun x => match x with | Json.str s => pure s | _ => throw "ends: string expected")
